@@ -202,16 +202,21 @@ def dihybrid_case(cid, rng, s, genic, cov=False):
     return c
 
 
-def uc_case(cid, rng, s):
-    """usefulness criterion = parental mean + intensity * sqrt(progeny variance): the implied variance is validated"""
+def uc_case(cid, rng, s, scheme="2w"):
+    """usefulness criterion = expected progeny mean + intensity * sqrt(progeny variance): the implied variance is validated. The
+    expected progeny mean weights the parents by their Mendelian shares (the MarginalShares invariant of ProgenyVar: 1/2, 1/2 --
+    1/2, 1/4, 1/4 with the recurrent parent first -- 1/4 each)"""
     import importlib
     from pybrops.popgen.gmat.DensePhasedGenotypeMatrix import DensePhasedGenotypeMatrix
     from pybrops.model.gmod.DenseAdditiveLinearGenomicModel import DenseAdditiveLinearGenomicModel
     from pybrops.popgen.gmap.HaldaneMapFunction import HaldaneMapFunction
     from pybrops.breed.prot.sel.prob.UsefulnessCriterionSelectionProblem import UsefulnessCriterionSelectionProblemMixin as UC
-    from pybrops.model.vmat.fcty.DenseTwoWayDHAdditiveGeneticVarianceMatrixFactory import DenseTwoWayDHAdditiveGeneticVarianceMatrixFactory as F
+    way = {"2w": "TwoWay", "3w": "ThreeWay", "4w": "FourWay"}[scheme]; K = SCHEME[scheme]
+    fname = "Dense%sDHAdditiveGeneticVarianceMatrixFactory" % way
+    F = getattr(importlib.import_module("pybrops.model.vmat.fcty." + fname), fname)
+    shares = {"2w": [0.5, 0.5], "3w": [0.5, 0.25, 0.25], "4w": [0.25] * 4}[scheme]
     chroms = layout(rng)
-    L = sum(len(c) for c in chroms); n = rng.randrange(2, 5); T = rng.randrange(1, 3)
+    L = sum(len(c) for c in chroms); n = rng.randrange(2, 5) if K == 2 else rng.randrange(2, 4); T = rng.randrange(1, 3)
     A = np.array([[rng.randrange(2) for _ in range(L)] for _ in range(n)], dtype="int8")
     u = np.array([[rng.choice([-2, -1, 1, 2]) for _ in range(T)] for _ in range(L)], dtype=float)
     chrgrp = np.array([k + 1 for k, ch in enumerate(chroms) for _ in ch], dtype="int64")
@@ -220,17 +225,19 @@ def uc_case(cid, rng, s):
                                    vrnt_genpos=np.array([x for ch in chroms for x in ch], dtype=float), vrnt_xoprob=np.full(L, 0.1))
     pg.group_vrnt()
     gm = DenseAdditiveLinearGenomicModel(beta=np.array([[3.0] * T]), u_misc=None, u_a=u, trait=np.array(["t%d" % t for t in range(T)], dtype=object))
-    c = {"id": cid, "scheme": "2w", "K": 2, "D": D, "s": s, "genic": False, "A": A.astype(int).tolist(), "u": u.astype(int).tolist(),
-         "rhoM": rho_matrix(chroms), "err": None, "cls": "UsefulnessCriterionSelectionProblem._calc_uc", "mem": "-", "cov": False, "labels": True}
+    c = {"id": cid, "scheme": scheme, "K": K, "D": D, "s": s, "genic": False, "A": A.astype(int).tolist(), "u": u.astype(int).tolist(),
+         "rhoM": rho_matrix(chroms), "err": None, "cls": "UsefulnessCriterionSelectionProblem._calc_uc[%s]" % scheme, "mem": "-", "cov": False, "labels": True}
     try:
         with time_limit(120), np.errstate(all="ignore"):
             inten = rng.choice([1.0, 2.0, 0.5])
-            xmap = UC._calc_xmap(n, 2, rng.random() < 0.5)
+            xmap = UC._calc_xmap(n, K, rng.random() < 0.5 and n >= K)
+            if len(xmap) > 24:
+                xmap = np.asarray(xmap)[sorted(rng.sample(range(len(xmap)), 24))]
             uc = np.asarray(UC._calc_uc(F(), 1, 10, s, HaldaneMapFunction(), inten, pg, gm, xmap), dtype=float)
             bv = np.asarray(gm.gebv(pg).unscale(), dtype=float)
             ok = True; ents = []
             for k, par in enumerate(np.asarray(xmap).tolist()):
-                pmean = bv[par, :].mean(0)
+                pmean = np.asarray(shares) @ bv[par, :]
                 for t in range(T):
                     dv = (uc[k, t] - pmean[t]) / inten
                     if dv < -1e-9:
@@ -308,6 +315,9 @@ def run(ctx):
         for s in (0, 1, 2):
             for _ in range(3 if thorough else 1):
                 allc.append(uc_case(len(allc) + 1, rng, s))
+        for scheme, s in (("3w", 0), ("3w", 1), ("4w", 0)):
+            if (scheme, s) in have:
+                allc.append(uc_case(len(allc) + 1, rng, s, scheme))
         for s, genic, cov in ((0, False, False), (1, False, False), (0, True, False), (1, False, False), (0, False, True), (1, False, True),
                               (-1, False, False), (-1, False, True)):
             if ("4w", s) in have:
